@@ -66,6 +66,12 @@ def check_one(desc, acc):
         # full object first (detour build), then the largest label is removed and everything is computed again
         variants.append((True, max(N0)))
         variants.append((False, min(N0)))
+        # the same with the incident hyperedges shrunk instead of dropped, and with a node / a hyperedge on a new node ADDED between
+        # the two computations (every way the node set of a live object can change must refresh whatever the first call left behind)
+        variants.append((True, ("keep", max(N0))))
+        variants.append((False, ("keep", min(N0))))
+        variants.append((False, ("add_node", None)))
+        variants.append((True, ("add_edge", min(N0))))
     for detour, drop in variants:
         h = C.build(desc, detour=detour)
         N = N0
@@ -76,9 +82,23 @@ def check_one(desc, acc):
                 h.get_mapping()
             except Exception:
                 pass
-            h.remove_node(drop)
-            N = tuple(n for n in N0 if n != drop)
-            detour = "%s+remove_node(%r)" % (detour, drop)
+            fresh = "zz-new" if any(isinstance(n, str) for n in N0) else max(N0) + 7
+            if not isinstance(drop, tuple):
+                h.remove_node(drop)
+                N = tuple(n for n in N0 if n != drop)
+                detour = "%s+remove_node(%r)" % (detour, drop)
+            elif drop[0] == "keep":
+                h.remove_node(drop[1], keep_edges=True)
+                N = tuple(n for n in N0 if n != drop[1])
+                detour = "%s+remove_node(%r, keep_edges=True)" % (detour, drop[1])
+            elif drop[0] == "add_node":
+                h.add_node(fresh)
+                N = tuple(N0) + (fresh,)
+                detour = "%s+add_node(%r)" % (detour, fresh)
+            else:
+                h.add_edge((drop[1], fresh))
+                N = tuple(N0) + (fresh,)
+                detour = "%s+add_edge(%r)" % (detour, (drop[1], fresh))
         w = dict(base, detour=detour)
         edges = [tuple(sorted(e)) for e in h.get_edges()]
         wts = {tuple(sorted(e)): h.get_weight(e) for e in h.get_edges()}
